@@ -11,7 +11,9 @@ import time
 
 from common import HARNESS_BIN, NCPU, REPO, Inconclusive, log, scratch_root, clean_env
 
-SHARD_TIMEOUT = 600      # generous wall-clock watchdog per shard (inconclusive when it fires without a culprit)
+SHARD_TIMEOUT = 1800     # generous wall-clock watchdog per shard (inconclusive when it fires without a culprit)
+STALL_TIMEOUT = 45       # a shard whose progress marker does not move for this long is stuck in ONE case (cases take micro-seconds);
+                         # the case is then re-run alone before anything is reported
 SINGLE_TIMEOUT = 20      # isolated re-run of one case: micro-seconds of work normally
 
 
@@ -71,6 +73,7 @@ def run_gen(verdict, prop, gen, seed, count, param=3, shards=None, start=0, max_
     for s, st in pending:
         launch(s, st, 0)
     crashes = 0
+    stall = {}
     while procs:
         time.sleep(0.02)
         for s in list(procs):
@@ -78,7 +81,17 @@ def run_gen(verdict, prop, gen, seed, count, param=3, shards=None, start=0, max_
             rc = p.poll()
             hung = rc is None and time.time() - t0 > SHARD_TIMEOUT
             if rc is None and not hung:
+                # progress-based stall detection
+                now = time.time()
+                st = stall.get(s)
+                cur = _read_progress(base + ".prog")
+                if st is None or st[0] != cur:
+                    stall[s] = (cur, now)
+                elif cur is not None and now - st[1] > STALL_TIMEOUT:
+                    hung = True
+            if rc is None and not hung:
                 continue
+            stall.pop(s, None)
             if hung:
                 p.kill()
                 p.wait()
@@ -114,7 +127,8 @@ def run_gen(verdict, prop, gen, seed, count, param=3, shards=None, start=0, max_
             verdict.violation(sig, "case %s/%d (seed %d, param %d) ends the process: %s; shard stderr: %s" % (gen, idx, seed, param, kind, err[-300:]),
                               payload={"engine": "harness", "gen": gen, "index": idx, "gen_seed": seed, "param": param,
                                        "replay": "%s run --prop %s --gen %s --seed %d --param %d --start %d --count 1 --out /dev/null" % (HARNESS_BIN, prop, gen, seed, param, idx)})
-            if crashes >= max_crashes:
+            hangs = sum(1 for c in merged["crashes"] if c["class"] == "no-termination-within-watchdog")
+            if crashes >= max_crashes or hangs >= 3:
                 log("too many crashing cases, stopping generator %s early" % gen)
                 for q in procs.values():
                     q[0].kill()
